@@ -83,6 +83,17 @@ def main():
                 rc, out = run(["cargo", "nextest", "run", "--workspace", "--no-fail-fast", "--test-threads", "8", "--offline",
                                "--cargo-quiet", "--status-level", "fail", "--final-status-level", "fail",
                                "--failure-output", "never", "--success-output", "never"], cwd=wt, env=tgt)
+            if rc != 0:
+                # tests that use fixed /tmp paths race with other suite runs on this shared machine:
+                # re-run just the failed tests (at most 6) alone; the verdict is theirs
+                failed = sorted(set(re.findall(r"^\s*(?:FAIL|SIGABRT|TIMEOUT)\s+\[[^\]]*\]\s+\S+\s+(\S+)\s*$", out, re.M)))
+                if 0 < len(failed) <= 6:
+                    flt = " | ".join("test(=%s)" % t for t in failed)
+                    rc2, out2 = run(["cargo", "nextest", "run", "--workspace", "--no-fail-fast", "--offline", "--cargo-quiet",
+                                     "--test-threads", "1", "-E", flt], cwd=wt, env=tgt)
+                    result["suite_retry"] = {"tests": failed, "rc": rc2}
+                    if rc2 == 0:
+                        rc = 0
             mm = re.search(r"(\d+) tests run: (\d+) passed(?: \((\d+) \w+\))?,? ?(?:(\d+) failed)?", out)
             summ = [l for l in out.splitlines() if "tests run" in l or "Summary" in l]
             result["suite"] = summ[-1].strip() if summ else out[-300:]
